@@ -842,12 +842,9 @@ func calculateAndCheckRuleHash(state *core.BuildState, target *core.BuildTarget)
 			log.Warning("%s", err)
 		}
 	}
-	if !target.IsFilegroup {
-		if err := writeRuleHash(state, target); err != nil {
-			return nil, fmt.Errorf("Attempting to record rule hash: %s", err)
-		}
-	}
-	// Set appropriate permissions on outputs
+	// Set appropriate permissions on outputs. This has to happen before we record the rule hash on them:
+	// once that is there the outputs count as up to date, and if we died in between a later build
+	// would never come back to make them executable.
 	if target.IsBinary {
 		for _, output := range target.FullOutputs() {
 			// Walk through the output,
@@ -861,6 +858,11 @@ func calculateAndCheckRuleHash(state *core.BuildState, target *core.BuildTarget)
 			if err != nil {
 				return nil, fmt.Errorf("failed to mark rule output as binary: %w", err)
 			}
+		}
+	}
+	if !target.IsFilegroup {
+		if err := writeRuleHash(state, target); err != nil {
+			return nil, fmt.Errorf("Attempting to record rule hash: %s", err)
 		}
 	}
 	return hash, nil
